@@ -168,7 +168,7 @@ def main(pid, tier="quick", seed=0, replay=None):
             continue
         if r["oracle"] is not None:
             if reported < MAXREP:
-                small = shrink_case(mod, r["case"], lambda c: mod.oracle(c, safe_impl(mod, c)) is not None)
+                small = shrink_case(mod, r["case"], lambda c: mod.oracle(c, safe_impl(mod, c)) is not None, budget_s=20 if reported == 0 else 3)
                 so = safe_impl(mod, small)
                 v.violation("counterexample", {"case": small, "implementation_returned": so, "why": mod.oracle(small, so),
                                                "original_case": r["case"], "replay_cmd": "./check %s --replay <this file>" % pid})
